@@ -6,15 +6,17 @@ The C, C++, C# and Java language definitions use the header pattern
 `[Name(), OneOrMore(Balanced("(", ")"))]`.  This file says, by plain recursion on the token list
 (no automata, no predicate state), which token ranges that pattern matches greedily:
 
-* a *group* starts at a token whose text is `(` and ends just past the matching `)`; matching is
-  by depth counting on the token TEXTS `(` and `)` (any token type), as `Balanced` does with
-  `TokenValue`;
+* a *group* starts at a punctuation token `(` and ends just past the matching punctuation token
+  `)`; matching is by depth counting on the PUNCTUATION tokens `(` and `)` (token type in
+  `Punctuation` and text equal, `Token.is_symbol`), as `Balanced` does with `Symbol`; a token of
+  any other type with the text `(` or `)` (e.g. the content of the string literal `'('`) is an
+  ordinary token;
 * `groupEnd toks i` is the index just past the group that starts at `i` (`none`: `toks[i]` is not
-  `(`, or the group is not closed before the end of the input);
+  a punctuation token `(`, or the group is not closed before the end of the input);
 * `groupsEnd toks i` is the index just past the maximal run of consecutive groups that starts at
   `i`; a last group that is never closed extends to the end of the input;
-* `SynHeader toks p f`: `toks[p]` is a name token, `toks[p + 1]` is `(`, and `f` is
-  `groupsEnd toks (p + 1)`.
+* `SynHeader toks p f`: `toks[p]` is a name token, `toks[p + 1]` is a punctuation token `(`, and
+  `f` is `groupsEnd toks (p + 1)`.
 
 `groupsEnd` is defined by one left-to-right pass that counts the nesting depth;
 `Props/C01syn.lean` (`groupsEnd_closed`, `groupsEnd_unclosed`, `groupsEnd_not_open`) shows that
@@ -22,15 +24,16 @@ it is the iteration of `groupEnd`.
 -/
 namespace CL.Syn
 
-/-- the token's text is `(` -/
-def isOpen (t : Tok) : Bool := t.val == [40]
+/-- the token is the punctuation token `(` (`Token.is_symbol("(")`: type in `Punctuation` and
+text `(`) -/
+def isOpen (t : Tok) : Bool := t.isSymbol [40]
 
-/-- the token's text is `)` -/
-def isClose (t : Tok) : Bool := t.val == [41]
+/-- the token is the punctuation token `)` (`Token.is_symbol(")")`) -/
+def isClose (t : Tok) : Bool := t.isSymbol [41]
 
 /-- `closeLen ts d`: the tokens `ts` are read inside `d + 1` open parentheses; the result is the
 number of tokens up to and including the `)` that closes the outermost of them, `none` when the
-input ends first -/
+input ends first (`(` and `)` are punctuation tokens throughout) -/
 def closeLen : List Tok → Nat → Option Nat
   | [], _ => none
   | t :: ts, d =>
@@ -41,8 +44,8 @@ def closeLen : List Tok → Nat → Option Nat
         | d' + 1 => (closeLen ts d').map (· + 1))
     else (closeLen ts d).map (· + 1)
 
-/-- the index just past the `)` that matches the `(` at index `i`; `none` when `toks[i]` is not
-`(` or when that parenthesis is not closed -/
+/-- the index just past the punctuation token `)` that matches the punctuation token `(` at index
+`i`; `none` when `toks[i]` is not a punctuation token `(` or when that parenthesis is not closed -/
 def groupEnd (toks : List Tok) (i : Nat) : Option Nat :=
   match toks.drop i with
   | [] => none
@@ -50,8 +53,8 @@ def groupEnd (toks : List Tok) (i : Nat) : Option Nat :=
 
 /-- `groupsLen ts d`: the tokens `ts` are read inside `d` open parentheses; the result is the
 number of tokens read before the pass stops.  Outside all parentheses (`d = 0`) the pass goes on
-only with a `(`; inside parentheses it reads every token, `(` and `)` changing the depth.  It
-stops at the end of the input at the latest. -/
+only with a punctuation token `(`; inside parentheses it reads every token, the punctuation
+tokens `(` and `)` changing the depth.  It stops at the end of the input at the latest. -/
 def groupsLen : List Tok → Nat → Nat
   | [], _ => 0
   | t :: ts, d =>
@@ -61,14 +64,14 @@ def groupsLen : List Tok → Nat → Nat
       | d' + 1 => if isClose t then groupsLen ts d' + 1 else groupsLen ts (d' + 1) + 1
 
 /-- the index just past the maximal run of consecutive parenthesis groups that starts at index
-`i` (`i` itself when `toks[i]` is not `(`; the end of the input when the last group is not
-closed) -/
+`i` (`i` itself when `toks[i]` is not a punctuation token `(`; the end of the input when the last
+group is not closed) -/
 def groupsEnd (toks : List Tok) (i : Nat) : Nat := i + groupsLen (toks.drop i) 0
 
 /-- `toks[i]` exists and is a name token -/
 def NameAt (toks : List Tok) (i : Nat) : Prop := ∃ t, toks[i]? = some t ∧ t.isName = true
 
-/-- `toks[i]` exists and its text is `(` -/
+/-- `toks[i]` exists and is the punctuation token `(` -/
 def OpenAt (toks : List Tok) (i : Nat) : Prop := ∃ t, toks[i]? = some t ∧ isOpen t = true
 
 /-- `toks[i]` exists and is the punctuation token with text `s` (`Token.is_symbol(s)`) -/
@@ -96,7 +99,8 @@ instance (toks : List Tok) (i : Nat) (s : Str) : Decidable (KeywordAt toks i s) 
     unfold KeywordAt; cases toks[i]? <;> simp)
 
 /-- the token range `[p, f)` is a C-family function header: a name token, directly followed by
-`(`, and `f` is just past the maximal run of parenthesis groups that starts there -/
+a punctuation token `(`, and `f` is just past the maximal run of parenthesis groups that starts
+there -/
 def SynHeader (toks : List Tok) (p f : Nat) : Prop :=
   NameAt toks p ∧ OpenAt toks (p + 1) ∧ f = groupsEnd toks (p + 1)
 
